@@ -14,6 +14,7 @@ R11.2  interpreter: every stack of length <= 2 over a small alphabet and every p
        satisfaction, for every script of C13's family
 R11.3  PSBT satisfier preimage look-ups with preimages of length 0, 31, 32, 33
 R11.4  the parser's pre-check bounds nesting: depth 402 accepted, 403 refused, before any tree is built
+R11.6  script decoder: every single-instruction mutation of every family script and all tiny scripts (props/decoder.py)
 R11.5  recursion reachable from the text / script / PSBT entry points is confined to the audited functions whose depth
        is bounded by the pre-check (call-graph SCCs over MIR)"""
 
@@ -442,3 +443,6 @@ def run(chk):
         chk.guard("R11.4", "depth", check_depth, chk, F)
     if not ONLY or "5" in ONLY:
         chk.guard("R11.5", "recursion", check_recursion, chk, F)
+    if not ONLY or "6" in ONLY:
+        from . import decoder
+        chk.guard("R11.6", "decoder", decoder.check_decoder_panics, chk, F)
